@@ -22,6 +22,11 @@ RULE = ("every method of the Client interface x name/version tuples (plain, odd-
         "headers, 4xx with diagnostics / error JSON / text / empty, 401 without token, 429, permanent 5xx, permanent "
         "reset); every diagnostics-returning method x diagnostics replies whose body code and HTTP status agree or "
         "disagree; same-method tuples differing in one position or permuted (collision oracle inside a group); "
+        "ROUTE-WORD family: every route word (versions, tags, open, decrypt, yaml, clone, retract, check, hooks, ...) in "
+        "every name / version position of every operation, both flag values, two words in the project/environment "
+        "positions (thorough: in every pair of positions), bucketed by (method, segment count) and run as one sequence "
+        "per bucket: two calls that address different RESOURCES (independent canonical form, delegations identified) "
+        "must not produce the same (method, target, body) - across operations; "
         "SEQUENCES of 2-4 operations on one client instance (every conditional update followed by every method, two "
         "different tags then every method, tag combinations t1/t2/none on one environment, random): per request the "
         "tag header must be exactly the tag of THAT call; malformed stream: one name per call replaced by '', '.', '..', names with / % ? # space, control and "
@@ -31,7 +36,12 @@ ASSUMPTIONS = [
     "(ALPHA DIGIT - _ . ~ $ & + , : ; = @), no '/'",
     "the server's n-th reply depends only on n (scripted); a 'connection error' is the server closing the "
     "connection after reading the request and before writing a response",
-    "request bodies of conditional updates are fixed JSON; durations are whole seconds",
+    "request bodies of updates are a fixed YAML text (opaque to the projection); of the JSON bodies the string, number "
+    "and boolean leaves are compared; durations are whole seconds",
+    "the diagnostics rule applies to the replies the per-method decoding sees: a 429 and a 401 on a client without a "
+    "token are answered by httpCall's generic errors (theorem C20_diagnostics_intercepted; counted as "
+    "diag_outside_429_or_401_without_token)",
+    "every call starts on a fresh connection (own server); sequences carry no transport faults",
 ]
 TRUSTED = ["net/http client+server, net/url, encoding/json, go-querystring are exercised, not proved; their "
            "request-line behaviour (url.Parse + RequestURI, transparent replay of a GET on a reused connection) is "
@@ -157,7 +167,7 @@ def expect(op, s, n):
     if op == "CreateEnvironmentWithProject":
         return "POST", E + b"/" + o, [o], b"", [s[1], s[2]]
     if op == "CloneEnvironment":
-        return "POST", envp(o, p, e) + b"/clone", [o, p, e], b"", [s[3], s[4]]
+        return "POST", envp(o, p, e) + b"/clone", [o, p, e], b"", [s[3], s[4], b"%d" % flag]
     if op == "GetEnvironment":
         return ("GET", envp(o, p, e, s[3]) + (b"/decrypt" if flag else b""), [o, p, e] + ([s[3]] if s[3] else []), b"",
                 [b"decrypt" if flag else b"plain", b"v" if s[3] else b"nov"])
@@ -203,13 +213,13 @@ def expect(op, s, n):
         return ("GET", envp(o, p, e) + b"/versions" + qs([("before", oi(n[0]), False), ("count", oi(n[1]), False)]),
                 [o, p, e], b"", [oi(n[0]), oi(n[1])])
     if op == "RetractEnvironmentRevision":
-        return "POST", envp(o, p, e) + b"/versions/" + s[3] + b"/retract", [o, p, e, s[3]], b"", [s[4]]
+        return "POST", envp(o, p, e) + b"/versions/" + s[3] + b"/retract", [o, p, e, s[3]], b"", [s[4], oi(n[0])]
     if op == "CreateEnvironmentRevisionTag":
-        return "POST", envp(o, p, e) + b"/versions/tags", [o, p, e], b"", [s[3]]
+        return "POST", envp(o, p, e) + b"/versions/tags", [o, p, e], b"", [s[3], oi(n[0])]
     if op == "GetEnvironmentRevisionTag":
         return "GET", envp(o, p, e) + b"/versions/tags/" + s[3], [o, p, e, s[3]], b"", []
     if op == "UpdateEnvironmentRevisionTag":
-        return "PATCH", envp(o, p, e) + b"/versions/tags/" + s[3], [o, p, e, s[3]], b"", []
+        return "PATCH", envp(o, p, e) + b"/versions/tags/" + s[3], [o, p, e, s[3]], b"", [oi(n[0])]
     if op == "DeleteEnvironmentRevisionTag":
         return "DELETE", envp(o, p, e) + b"/versions/tags/" + s[3], [o, p, e, s[3]], b"", []
     if op == "ListEnvironmentRevisionTags":
@@ -220,12 +230,85 @@ def expect(op, s, n):
     raise KeyError(op)
 
 
+def resource(op, s, n):
+    """Canonical form of the RESOURCE a call addresses, independent of the operation that addresses it (operations
+    related by delegation or by sharing a REST route give the same form).  Built from the documented routes, not from
+    the Go source.  Two calls with different forms must never produce the same (method, target, body)."""
+    s = list(s) + [b""] * 8
+    n = list(n) + [None] * 3
+    o, p, e = s[0], s[1], s[2]
+    flag = bool(n[0])
+    if op in ("Insecure", "URL"):
+        return ["none"]
+    if op == "GetPulumiAccountDetails":
+        return ["user"]
+    if op == "GetRevisionNumber":
+        v = s[3] or b"latest"
+        return ["local"] if v[:1].isdigit() else ["revtag", o, p, e, v, b""]
+    if op == "ListEnvironments":
+        return ["envs", s[0], s[1]]
+    if op == "CreateEnvironment":
+        return ["create", o, b"default", s[1]]
+    if op == "CreateEnvironmentWithProject":
+        return ["create", o, s[1], s[2]]
+    if op == "CloneEnvironment":
+        return ["clone", o, p, e, s[3], s[4], b"%d" % flag]
+    if op == "GetEnvironment":
+        return ["env", o, p, e, s[3], b"decrypt" if flag else b"plain"]
+    if op in ("UpdateEnvironmentWithRevision", "UpdateEnvironmentWithProject", "DeleteEnvironment", "EnvironmentExists"):
+        return ["env", o, p, e, b"", b"plain"]
+    if op == "UpdateEnvironment":
+        return ["env", o, b"default", s[1], b"", b"plain"]
+    if op == "OpenEnvironment":
+        return ["env-open", o, p, e, s[3], dur(n[0] or 0)]
+    if op == "CheckYAMLEnvironment":
+        return ["yaml-check", o, b"%d" % flag]
+    if op == "OpenYAMLEnvironment":
+        return ["yaml-open", o, dur(n[0] or 0)]
+    if op == "GetOpenEnvironment":
+        return ["session", o, b"default", s[1], s[2], b"-"]
+    if op == "GetOpenEnvironmentWithProject":
+        return ["session", o, p, e, s[3], b"-"]
+    if op == "GetOpenProperty":
+        return ["session", o, p, e, s[3], b"=" + s[4]]
+    if op == "GetAnonymousOpenEnvironment":
+        return ["anon-session", o, s[1], b"-"]
+    if op == "GetAnonymousOpenProperty":
+        return ["anon-session", o, s[1], b"=" + s[2]]
+    if op == "ListEnvironmentTags":
+        return ["env-tags", o, p, e, s[3], oi(n[0])]
+    if op == "CreateEnvironmentTag":
+        return ["env-tag-create", o, p, e, s[3], s[4]]
+    if op in ("GetEnvironmentTag", "DeleteEnvironmentTag"):
+        return ["env-tag", o, p, e, s[3]]
+    if op == "UpdateEnvironmentTag":
+        return ["env-tag", o, p, e, s[3], s[4], s[5], s[6]]
+    if op == "GetEnvironmentRevision":
+        return ["revisions", o, p, e, oi((n[0] or 0) + 1), b"1"]
+    if op == "ListEnvironmentRevisions":
+        return ["revisions", o, p, e, oi(n[0]), oi(n[1])]
+    if op == "RetractEnvironmentRevision":
+        return ["retract", o, p, e, s[3], s[4], oi(n[0])]
+    if op == "CreateEnvironmentRevisionTag":
+        return ["revtag-create", o, p, e, s[3], oi(n[0])]
+    if op in ("GetEnvironmentRevisionTag", "DeleteEnvironmentRevisionTag"):
+        return ["revtag", o, p, e, s[3], b""]
+    if op == "UpdateEnvironmentRevisionTag":
+        return ["revtag", o, p, e, s[3], oi(n[0])]
+    if op == "ListEnvironmentRevisionTags":
+        return ["revtags", o, p, e, s[3], oi(n[0])]
+    raise KeyError(op)
+
+
 # ---- pools ---------------------------------------------------------------------------------------------
 PLAIN = [b"org1", b"my-proj", b"env_2", b"a.b", b"x~y", b"a", b"Z9", b"team-42", b"prod"]
 ODD_VALID = [b"a$b", b"a&b", b"a+b", b"a,b", b"a:b", b"a;b", b"a=b", b"a@b", b"...", b".a", b"a.", b"-", b"_", b"~",
              b"$&+,:;=@"]
 ROUTE_WORDS = [b"versions", b"tags", b"open", b"decrypt", b"yaml", b"clone", b"default", b"latest", b"retract",
-               b"check", b"environments", b"api", b"esc", b"user"]
+               b"check", b"environments", b"api", b"esc", b"user", b"hooks", b"drafts", b"schedules", b"rotate",
+               b"revisions", b"providers"]
+# the words that occur as literal segments BELOW an organisation in today's routes (two-word family)
+ROUTE_WORDS_2 = [b"yaml", b"open", b"tags", b"versions", b"decrypt", b"check", b"clone", b"retract"]
 SUBDELIM = [b"a!b", b"a'b", b"(a)", b"a*b", b"[a]", b"!"]
 MALFORMED = [b"", b".", b"..", b"a/b", b"a/../b", b"../x", b"a/", b"/a", b"a//b", b"a%41", b"a%2Fb", b"a%2fb", b"a%zz", b"%",
              b"a%4", b"a?b", b"a?", b"?", b"a?b=c&d", b"a#b", b"#", b"a#", b"a#%zz", b"a b", b" ", b"a\xc3\xa9b", b"a\nb",
@@ -372,12 +455,18 @@ def gen_calls(rng, tier):
         roles, _ = OPS[op]
         if "N" not in roles and "V" not in roles:
             continue
+        first = len(calls)
         base_s, base_n = mk_args(rng, op)
         variants = [list(base_s)]
         for i, r in enumerate(roles):
             if r in "NV":
                 v = list(base_s)
                 v[i] = rng.choice(PLAIN + ODD_VALID + ROUTE_WORDS)
+                variants.append(v)
+            elif r == "S":
+                # names carried in the BODY (destination project / environment, tag names and values, reason)
+                v = list(base_s)
+                v[i] = rng.choice([x for x in SVALS + PLAIN if x != base_s[i]])
                 variants.append(v)
         v = list(base_s)
         idx = [i for i, r in enumerate(roles) if r == "N"]
@@ -391,6 +480,13 @@ def gen_calls(rng, tier):
             calls.append(call(op, v, base_n, b"tok", [], FINALS_OK[0]))
         if base_n and OPS[op][1][0] == "b":
             calls.append(call(op, base_s, [1 - base_n[0]] + base_n[1:], b"tok", [], FINALS_OK[0]))
+        # the numbers a request carries (revision of a tag, replacement revision, page sizes): present / absent / other
+        if base_n and OPS[op][1][0] in "ir":
+            for alt in (None, 7, 8):
+                if alt != base_n[0] and not (alt is None and OPS[op][1][0] == "r"):
+                    calls.append(call(op, base_s, [alt] + base_n[1:], b"tok", [], FINALS_OK[0]))
+        for c in calls[first:]:
+            c["g"] = "inj-" + op      # kept in ONE group: the collision oracle works inside a group
 
     # ---- random structured stream ----------------------------------------------------------------------
     for _ in range(4000 if thorough else 500):
@@ -523,16 +619,95 @@ def gen_seqs(rng, tier):
     return out
 
 
+def gen_route_words(rng, tier):
+    """Exhaustive family for addressing ACROSS operations: every route word in every name / version position of every
+    operation (all other positions hold fixed plain names, so that requests of different operations can coincide), both
+    values of a boolean flag; two words in every pair of positions (quick: the project/environment pair only).  No
+    faults.  The calls are bucketed by (expected method, number of segments of the expected target) - two requests can
+    only coincide inside a bucket unless one of them misses its expected target, which the target clause reports - and
+    every bucket runs as sequences on one client so that the collision oracle sees all its calls together."""
+    thorough = tier == "thorough"
+    base = [b"org1", b"proj", b"env", b"x1", b"x2", b"x3", b"x4"]
+    calls = []
+
+    def variants(op, s, n):
+        kinds = OPS[op][1]
+        if kinds[:1] in ("b", "B"):
+            for b in (0, 1):
+                yield call(op, s, [b] + list(n[1:]), b"tok", [], FINALS_OK[0])
+        else:
+            yield call(op, s, n, b"tok", [], FINALS_OK[0])
+
+    for op in OP_NAMES:
+        roles, kinds = OPS[op]
+        pos = [i for i, r in enumerate(roles) if r in "NV"]
+        if not pos:
+            continue
+        s0 = []
+        for i, r in enumerate(roles):
+            s0.append(base[i] if r in "NV" else (b"q" if r == "Q" else b"sv" if r == "S" else b""))
+        n0 = [None if k in "iB" else 0 for k in kinds]
+        if "V" in roles:
+            for c in variants(op, [b"" if r == "V" else x for x, r in zip(s0, roles)], n0):
+                calls.append(c)
+        for c in variants(op, s0, n0):
+            calls.append(c)
+        for i in pos:
+            for w in ROUTE_WORDS:
+                v = list(s0)
+                v[i] = w
+                calls.extend(variants(op, v, n0))
+                if "V" in roles and roles[i] != "V":
+                    v2 = [b"" if r == "V" else x for x, r in zip(v, roles)]
+                    calls.extend(variants(op, v2, n0))
+        pairs = [(i, j) for i in pos for j in pos if i < j]
+        if not thorough:
+            pairs = [(i, j) for i, j in pairs if (i, j) == (1, 2)]
+        for i, j in pairs:
+            for w1 in ROUTE_WORDS_2:
+                for w2 in ROUTE_WORDS_2:
+                    v = list(s0)
+                    v[i], v[j] = w1, w2
+                    calls.extend(variants(op, v, n0))
+                    if "V" in roles and roles[i] != "V" and roles[j] != "V":
+                        v2 = [b"" if r == "V" else x for x, r in zip(v, roles)]
+                        calls.extend(variants(op, v2, n0))
+    buckets = {}
+    for c in calls:
+        m, target, _, _, _ = expect(c["op"], [bytes.fromhex(x) for x in c["s"]], c["n"])
+        if m == "-":
+            continue
+        key = (m, target.split(b"?")[0].count(b"/"))
+        buckets.setdefault(key, []).append(c)
+    items = []
+    for key in sorted(buckets):
+        b = buckets[key]
+        # one sequence per bucket, never cut: calls that can coincide stay together
+        items.append({"seq": b, "family": "route-words"})
+    return items
+
+
 def gen(rng, tier):
     calls = gen_calls(rng, tier)
+    together = {}
+    for c in calls:
+        if "g" in c:
+            together.setdefault(c.pop("g"), []).append(c)
+    kept = set(id(c) for cs in together.values() for c in cs)
+    calls = [c for c in calls if id(c) not in kept]
     slow = [c for c in calls if delay_of(c) > 0]
     fast = [c for c in calls if delay_of(c) == 0]
     slow.sort(key=lambda c: (delay_of(c), c["op"]))
     seqs = gen_seqs(rng.fork("seq"), tier)
     groups = []
+    # the route-word family: one group per bucket (the collision oracle works inside a group)
+    for it in gen_route_words(rng.fork("route-words"), tier):
+        groups.append({"calls": [it]})
     # sequences first: they are cheap and a stale-header defect shows only there
     for i in range(0, len(seqs), 8):
         groups.append({"calls": seqs[i:i + 8]})
+    for k in sorted(together):
+        groups.append({"calls": together[k]})
     for i in range(0, len(fast), 12):
         groups.append({"calls": fast[i:i + 12]})
     for i in range(0, len(slow), 48):
@@ -596,10 +771,11 @@ def call_sx(c, o):
     s = [bytes.fromhex(x) for x in c["s"]]
     m, target, pn, tag, extra = expect(c["op"], s, c["n"])
     ident = json.dumps([c["op"], [x.hex() for x in pn], [x.hex() for x in extra]])
-    return "(call %s (%s) (%s) %s (%s) %s (%s) %s %s %s %s %s %s)" % (
+    rid = json.dumps([x if isinstance(x, str) else x.hex() for x in resource(c["op"], s, c["n"])])
+    return "(call %s (%s) (%s) %s (%s) %s (%s) %s %s %s %s %s %s %s)" % (
         c["op"], " ".join(X(x) for x in c["s"]), " ".join("nil" if v is None else str(v) for v in c["n"]),
         X(c["token"]), " ".join(reply_sx(r) for r in c["script"]), reply_sx(c["final"]),
-        " ".join(C.sx(x) for x in pn), m, C.sx(target), C.sx(ident), C.sx(tag),
+        " ".join(C.sx(x) for x in pn), m, C.sx(target), C.sx(ident), C.sx(rid), C.sx(tag),
         "t" if c["op"] in DIAG_OPS else "f", obs_sx(o))
 
 
@@ -655,6 +831,9 @@ def distribution(cases, r):
     d = {"groups": len(cases), "calls": 0}
     seen = {}
     collisions = {}
+    in_class = 0
+    outside = 0
+    diag_known = 0
     for c, o in zip(cases, r["obs"]):
         obs = o.get("calls") if isinstance(o, dict) else None
         if not obs:
@@ -664,6 +843,8 @@ def distribution(cases, r):
             if "seq" in it:
                 d["sequences"] = d.get("sequences", 0) + 1
                 d["sequence_calls"] = d.get("sequence_calls", 0) + len(it["seq"])
+                if it.get("family") == "route-words":
+                    d["route_word_family_calls"] = d.get("route_word_family_calls", 0) + len(it["seq"])
         for cc, oo in flat(c, o):
             d["calls"] += 1
             if not oo or "reqs" not in oo:
@@ -674,34 +855,36 @@ def distribution(cases, r):
             d[k] = d.get(k, 0) + 1
             kk = "requests:%d" % len(oo["reqs"])
             d[kk] = d.get(kk, 0) + 1
-            m, target, pn, _, _ = expect(cc["op"], [bytes.fromhex(x) for x in cc["s"]], cc["n"])
+            sb = [bytes.fromhex(x) for x in cc["s"]]
+            m, target, pn, _, _ = expect(cc["op"], sb, cc["n"])
             if len(oo["reqs"]) > oo["att"]:
                 d["transport_replays"] = d.get("transport_replays", 0) + 1
+            # escape hatches of the diagnostics rule, counted: replies the rule does not apply to (429, 401 without
+            # a token), and failures excused by the class of C20-diag-code (body code absent or not 400)
+            f0 = (cc["script"] or [cc["final"]])[0]
+            if (cc["op"] in DIAG_OPS and len(oo["reqs"]) == 1 and f0.get("k") == "resp" and f0.get("body") == "j"
+                    and 400 <= f0["status"] <= 499 and f0.get("ndiag", 0) > 0):
+                if f0["status"] == 429 or (f0["status"] == 401 and cc["token"] == ""):
+                    outside += 1
+                elif res.get("k") != "diags" and f0.get("code") != 400:
+                    diag_known += 1
             if oo["reqs"] and all(valid_name(x) for x in pn):
-                key = (oo["reqs"][0]["m"], oo["reqs"][0]["t"])
-                route = cc["op"]
-                prev = seen.setdefault(key, route)
-                # cross-operation collisions (an observation, not a claim): different methods of the interface,
-                # not related by delegation, whose requests coincide
-                if prev != route and not _same_route(prev, route):
-                    collisions.setdefault("%s %s" % (key[0], bytes.fromhex(key[1]).decode("latin-1")), sorted({prev, route}))
+                rq = oo["reqs"][0]
+                key = (rq["m"], rq["t"], json.dumps(rq["bf"]))
+                rid = json.dumps([x if isinstance(x, str) else x.hex() for x in resource(cc["op"], sb, cc["n"])])
+                prev = seen.setdefault(key, (rid, cc["op"], pn))
+                # cross-operation collisions: the same request for two different resources (the oracle in Corr/C20.v
+                # decides inside a group; this is the global count)
+                if prev[0] != rid:
+                    collisions.setdefault("%s %s" % (key[0], bytes.fromhex(key[1]).decode("latin-1")), sorted({prev[1], cc["op"]}))
+                    if any(x in ROUTE_WORDS for x in pn) or any(x in ROUTE_WORDS for x in prev[2]):
+                        in_class += 1
+    d["diag_outside_429_or_401_without_token"] = outside
+    d["diag_failures_in_known_class_C20-diag-code"] = diag_known
     d["cross_operation_collisions_observed"] = len(collisions)
+    d["cross_operation_collisions_with_a_route_word_name"] = in_class
     d["cross_operation_collision_samples"] = dict(list(sorted(collisions.items()))[:8])
     return d
-
-
-_ROUTE_FAMILY = [
-    {"CreateEnvironment", "CreateEnvironmentWithProject"},
-    {"UpdateEnvironment", "UpdateEnvironmentWithProject", "UpdateEnvironmentWithRevision"},
-    {"GetOpenEnvironment", "GetOpenEnvironmentWithProject"},
-    {"GetEnvironmentRevision", "ListEnvironmentRevisions"},
-    {"GetEnvironment", "EnvironmentExists"},
-    {"GetRevisionNumber", "GetEnvironmentRevisionTag"},
-]
-
-
-def _same_route(a, b):
-    return any(a in f and b in f for f in _ROUTE_FAMILY)
 
 
 def model_show(c, o):
